@@ -1110,9 +1110,13 @@ impl MutableArchive {
             Err(_) => String::new(), // If can't read, start fresh
         };
 
-        // Add new filename if not already present
+        // Add new filename if not already present. Compare whole lines: a substring
+        // test would treat "b.txt" as present when only "ab.txt" is listed.
         let filename_line = filename.to_string();
-        if !current_content.contains(&filename_line) {
+        let already_listed = current_content
+            .lines()
+            .any(|line| line.trim().eq_ignore_ascii_case(&filename_line));
+        if !already_listed {
             if !current_content.ends_with('\n') && !current_content.is_empty() {
                 current_content.push('\n');
             }
